@@ -1,7 +1,7 @@
 (** Value semantics of the Cranelift IR instructions that src/cranelift.rs emits (trusted model of
     cranelift-codegen's documented instruction semantics).  An IR value of an integer type of width w is
     represented by its unsigned value in [0, 2^w); comparison results are 1 / 0 of type i8. *)
-From Coq Require Import ZArith Bool.
+From Coq Require Import ZArith Bool List.
 From RbpfV Require Import MachInt.
 Open Scope Z_scope.
 
@@ -32,6 +32,8 @@ Record clvars := { v_stack_start : Z; v_stack_end : Z; v_mem_start : Z; v_mem_en
 Definition ir_ireduce (wfrom wto v : Z) : Z := v mod 2 ^ wto.
 Definition ir_uextend (wfrom wto v : Z) : Z := v.
 Definition ir_sextend (wfrom wto v : Z) : Z := (sgn wfrom v) mod 2 ^ wto.
+(** bswap reverses the bytes of a w-bit value *)
+Definition ir_bswap (w v : Z) : Z := of_le_bytes (rev (le_bytes (Z.to_nat (w / 8)) (v mod 2 ^ w))).
 (** division traps on a zero divisor *)
 Definition ir_udiv (w a b : Z) : res Z := if b =? 0 then Panic 0 else Ok (a / b).
 Definition ir_urem (w a b : Z) : res Z := if b =? 0 then Panic 0 else Ok (a mod b).
